@@ -102,11 +102,13 @@ SPEC = {
     "C01": dict(level="other", pyvc=True, extra=[],
                 text="Proved: the per-component choice of the solver in sum_products (one-step iff a single acyclic nonterminal; linear for "
                      "newton iff no rule has two edges inside the component; all other options passed through) and rename_duplicate_nodes "
-                     "(repeated external nodes are renamed apart by fresh, connected copies). Bounded stand-in for the denotation: every "
+                     "(repeated external nodes are renamed apart by fresh, connected copies); scc, by which the nonterminals are scheduled, "
+                     "returns a partition of the nonterminals (every nonterminal is scheduled exactly once). Bounded stand-in for the denotation: every "
                      "grammar of the stated scope x 4 semirings x dtype x method against an independent evaluation of the definition."),
     "C02": dict(level="other", pyvc=True, extra=[lambda ctx: _semvc_laws(ctx, only="star")],
                 text="Proved: control flow of fixed_point and newton (leaving the iteration without the stopping criterion => a warning was "
-                     "issued; bounded number of evaluations of F), star(x) is the least solution of y = 1 + x*y in each semiring. Bounded: "
+                     "issued; bounded number of evaluations of F), star(x) is the least solution of y = 1 + x*y in each semiring, method='linear' "
+                     "raises ValueError exactly on rules with two unresolved edges, scc partitions the nonterminals. Bounded: "
                      "values against an independent Kleene iteration. Convergence rates / 'error vanishes as tol does' are not decidable here."),
     "C03": dict(level="other", pyvc=True, extra=[],
                 text="Proved: rename_duplicate_nodes (the `ext + edge.nodes` overlap in the Jacobian is renamed apart correctly). Everything "
@@ -135,7 +137,10 @@ SPEC = {
     "C10": dict(level="other", pyvc=True, extra=[],
                 text="Proved: the graph helpers preserve the symmetric/irreflexive adjacency invariant with exact view postconditions, "
                      "eliminate_node = remove v and make N(v) a clique, min_fill returns a permutation of the vertices and leaves its argument "
-                     "untouched, tree_decomposition dispatches on method. Bounded (exhaustive up to the stated vertex bound): validity and optimality."),
+                     "untouched, tree_decomposition dispatches on method; tree_decomposition_from_order (nested recursive build verified against "
+                     "its own contract): every vertex and every edge of the graph lies in some bag, bags consist of vertices, the result is "
+                     "non-empty (AssertionError of the clique search is declared possible: the Helly property is not proved). Bounded "
+                     "(exhaustive up to the stated vertex bound): running intersection, tree shape, optimality, acb."),
     "C11": dict(level="other", pyvc=False, extra=[_own("assert_purity"), _semvc("vf.semvc.homs.run_c11")],
                 text="Proved: every assert / `if __debug__` block is a check only (python -O/-OO safe); log, support and max<=+ are semiring "
                      "homomorphisms on scalars. Bounded: relational comparison across method x j_precompute x dtype x semiring x interpreter level."),
@@ -161,7 +166,11 @@ SPEC = {
     "C17": dict(level="other", pyvc=True, extra=[],
                 text="Proved: nonterminal_pairs is total on pairs of nonterminals, its names are pairwise distinct and differ from every "
                      "existing label, each paired label has the first component's type; check_namespace_collisions returns exactly the "
-                     "conflicting pairs; unique_label_name. Bounded: rule-level structure of conjoin_rules and the derivation bijection."),
+                     "conflicting pairs; unique_label_name; conjoinable is True exactly for equal node sets, equal (id, attachment) signatures "
+                     "of the nonterminal edges and equal external ids; conjoin_rules raises nothing on conjoinable rules with paired labels "
+                     "and compatible terminals, carries the nodes, externals and paired lhs, pairs every explicit-id nonterminal edge (both "
+                     "directions), yields a well-formed rhs and leaves its arguments alone. Bounded: implicit-id and terminal edges of "
+                     "conjoin_rules, the derivation bijection."),
     "C18": dict(level="other", pyvc=True, extra=[_own("inplace_ownership"), _own("no_hidden_state")],
                 text="Proved (ownership analysis over the real ASTs): every in-place write in the tensor modules reaches only storage allocated in "
                      "the same call or owned by the receiver by contract; Graph.copy / copy_graph / min_fill frame conditions by pyvc. Bounded: "
@@ -169,7 +178,10 @@ SPEC = {
     "C19": dict(level="other", pyvc=True, extra=[],
                 text="Proved: nonterminal_graph has every nonterminal as a vertex, an edge X->Y exactly when a rule of X has an rhs edge labelled "
                      "by the nonterminal Y, and is closed -- over a read-only view of the HRG whose accessors all_rules/rules enter as ASSUMED "
-                     "contracts. scc (Tarjan) is a bounded stand-in, exhaustive over all digraphs up to 4 vertices and all insertion orders."),
+                     "contracts. scc (Tarjan, with its nested recursive visit verified against its own contract): the result is a partition of "
+                     "the vertex set into non-empty pairwise disjoint blocks and no KeyError/IndexError occurs on a closed adjacency map. "
+                     "That the blocks are exactly the SCCs in dependency order: bounded stand-in, exhaustive over all digraphs up to 4 "
+                     "vertices and all insertion orders."),
     "C20": dict(level="other", pyvc=True, extra=[],
                 text="Contracts on fggs/domains.py (numberize/denumberize mutually inverse under the representation invariant established by "
                      "__init__, contains, equality by content) and on add_domain / add_factor / shape (raises iff, unchanged on raise), discharged "
